@@ -114,6 +114,16 @@ def run(chk, repo, tier):
                 chk.ob("C04.R7", construct, f"[{rule_}] {key}", ok, detail, where)
         if errd is not None and all(o[3] for o in subd.obs):
             raise errd
+    # "never raise" includes RecursionError (a RuntimeError: none of the entry points' except clauses catches it).  The
+    # double-and-add multiply recurses one frame per scalar bit; the package provisions that at import time.
+    chk.rule("C04.R8", "recursion budget: recursive functions below the verification entry points have a static depth bound (halving "
+                       "measure, constant scalars at their call sites) and the recursion limit the package leaves in force at import "
+                       "is at least CPython's default plus that depth", 2)
+    from ..recursion import recursion_budget
+    from ..interp import World as _World
+    roots = [f"{CS}.{s_}.{e_}" for s_ in ("BaseG2Ciphersuite",) + tuple(SUITES) for e_ in ENTRY]
+    for construct, key, ok, det, where in recursion_budget(repo, _World(repo), roots, [CS]):
+        chk.ob("C04.R8", construct, key, ok, det, where)
     if tier == "thorough":
         mypy_cross_reference(chk, repo)
     chk.not_decided += ["implicit exceptions of builtins outside the modelled list (bytes +, len, set of bytes, zip)",
@@ -162,6 +172,7 @@ def run(chk, repo, tier):
         nsinks = 0
         ndec = 0
         accept_bad = {}
+        zip_bad = {}
         naccept = 0
         for p in paths:
             decoded = {}
@@ -175,6 +186,12 @@ def run(chk, repo, tier):
                         dec_bad.setdefault((ev["fn"], ev["caller"]), (ev, p))
                     if _transformed_input(ev["arg"]):
                         copy_bad.setdefault((ev["fn"], ev["caller"]), (ev, p))
+                elif ev["kind"] == "zip":
+                    # keys are validated inside the loop over zip(PKs, messages): a zip that may be shorter than the key
+                    # list leaves the keys beyond it undecoded and unvalidated on an accepting exit
+                    la, lb = ev["lens"][0], ev["lens"][1]
+                    if not has_fact(ev["facts"], t_eq(la, lb), True):
+                        zip_bad.setdefault(ev["where"], (ev, p))
                 elif ev["kind"] == "pairing":
                     nsinks += 1
                     Q, P, f = ev["Q"], ev["P"], ev["facts"]
@@ -213,6 +230,10 @@ def run(chk, repo, tier):
                 chk.ob("C04.R2", construct, "accepting exits", True, f"{naccept} accepting paths carry all gates", m.where)
             for k, p in accept_bad.items():
                 chk.ob("C04.R2", construct, k, False, f"path {' '.join(p.branch_lines()[-10:])}", m.where)
+        for where, (ev, p) in zip_bad.items():
+            chk.ob("C04.R2", construct, f"zip at {where.split('(')[-1]} may be shorter than the key list", False,
+                   f"zip({', '.join(show(l) for l in ev['lens'])}) at {where} without a length-equality gate: keys beyond the shorter "
+                   f"sequence are never decoded or validated, yet the call can accept; path {' '.join(p.branch_lines()[-6:])}", where)
         for (fn, caller), (ev, p) in copy_bad.items():
             chk.ob("C04.R3", construct, f"{fn} decodes a transformed copy of the caller's bytes", False,
                    f"{fn}({show(ev['arg'])[:100]}) at {ev['where']}: the value that is length-gated and decoded is a slice / re-assembly of "
@@ -273,12 +294,15 @@ MANIFEST = {
     "level": "other",
     "technique": "static analysis: path-enumerating abstract interpretation of the verification entry points over "
                  "symbolic byte strings (exception-escape, must-pass-through guards / typestate at pairing sinks, "
-                 "exact accepted sets of the length predicates)",
+                 "exact accepted sets of the length predicates); package call graph with recursion-depth bound "
+                 "(halving measure, constant folding of scalars at call sites) against the import-time recursion limit",
     "text": "Decides for all inputs (not samples) that no raise escapes KeyValidate/Verify/AggregateVerify/"
             "FastAggregateVerify/PopVerify in any suite, that every pairing argument and every accepting exit is dominated by "
             "length gate, successful decode, subgroup check and (keys) non-identity check on the same value, and that the length "
             "predicates accept exactly 48/96-byte bytes objects. This is the shape-of-code part of C04; it is decided on every "
-            "path of the current source.",
+            "path of the current source. R8: RecursionError is a raise too — recursive functions below the entry points have a "
+            "static depth bound and the recursion limit the package sets at import is at least CPython's default plus that "
+            "depth (provisioning, not a claim about arbitrarily deep callers).",
     "note": "R5 re-states the decoder tables of C11; R7 re-states C17.R1 and the ladder schema of the optimized BLS multiply (C07.R3): the subgroup gate refuses every point outside the subgroup only if multiply is scalar multiplication on every curve point. Trusted: the checker's model of the Python fragment; decoders/curve functions pure (C20); subgroup_check/is_inf mean "
             "what C17/C13 establish; implicit exceptions of builtins only for the modelled list.",
 }
